@@ -416,23 +416,23 @@ macro_rules! obs_basic {
         }
     };
 }
-// @h props=C08,C04,C10 tier=quick family=A prof=AB mem=8 timeout=1200 role=bitvector.basic
+// @h props=C08,C04,C10 tier=quick family=A prof=AB mem=5 timeout=1200 role=bitvector.basic
 // @bound BitVector: any valid state of 1..=512 bits; get index over all usize; get_word over every allocated word
 // @funcs BitVector::get, BitVector::get_unchecked, BitVector::get_word, BitVector::len, BitVector::count_ones, BitVector::count_zeros, BitVectorMut::get_bit_slice
 obs_basic!(c08_basic_imm_l1, 1, mk_imm);
-// @h props=C08,C04,C10 tier=quick family=A prof=AB mem=8 timeout=1200 role=bitvectormut.basic
+// @h props=C08,C04,C10 tier=quick family=A prof=AB mem=5 timeout=1200 role=bitvectormut.basic
 // @bound BitVectorMut: any valid state of 1..=512 bits
 // @funcs BitVectorMut::get, BitVectorMut::get_unchecked, BitVectorMut::get_word, BitVectorMut::len, BitVectorMut::count_ones, BitVectorMut::count_zeros
 obs_basic!(c08_basic_mut_l1, 1, mk_mut);
-// @h props=C08,C04 tier=quick family=A mem=8 timeout=1200 role=bitvector.basic
+// @h props=C08,C04 tier=quick family=A mem=5 timeout=1200 role=bitvector.basic
 // @bound BitVector: any valid state of 513..=1024 bits
 // @funcs BitVector::get, BitVector::get_word
 obs_basic!(c08_basic_imm_l2, 2, mk_imm);
-// @h props=C08,C04 tier=quick family=E mem=8 timeout=1200 role=bitvector.basic
+// @h props=C08,C04 tier=quick family=E mem=5 timeout=1200 role=bitvector.basic
 // @bound BitVector: empty state
 // @funcs BitVector::get, BitVector::len
 obs_basic!(c08_basic_imm_l0, 0, mk_imm);
-// @h props=C08,C04 tier=quick family=E mem=8 timeout=1200 role=bitvectormut.basic
+// @h props=C08,C04 tier=quick family=E mem=5 timeout=1200 role=bitvectormut.basic
 // @bound BitVectorMut: empty state
 // @funcs BitVectorMut::get, BitVectorMut::len
 obs_basic!(c08_basic_mut_l0, 0, mk_mut);
